@@ -1,0 +1,185 @@
+//go:build verif
+// +build verif
+
+package main
+
+import (
+	"encoding/json"
+	"fmt"
+	"os"
+	"os/signal"
+	"strconv"
+	"strings"
+	"sync"
+	"syscall"
+
+	"github.com/marekgalovic/anndb"
+	"github.com/marekgalovic/anndb/storage/raft"
+
+	uuid "github.com/satori/go.uuid"
+)
+
+// Environment-driven hooks for verification runs against a real server process:
+//
+//	VERIF_KILL_AT=<zero|partition|any>:<point>@<k>  SIGKILL this process at the k-th hit of a ready-loop event
+//	                                                (beforeSave, afterSave, applied, beforeSendFollower, afterAdvance,
+//	                                                snapshot.trigger, snapshot.done, snapshotInstalled)
+//	VERIF_KILL_ARM=signal                           count the hits only from the first SIGUSR2 on
+//	VERIF_SNAPSHOT_EVERY=<n>                        snapshot + compact a group after every n entries it applied
+//	VERIF_DUMP=<path>                               on SIGUSR1 write partitions, catalogue and address book as JSON
+func verifInstall(server *anndb.Server) {
+	var mu sync.Mutex
+	snapC := map[uuid.UUID]chan uint64{}
+	applied := map[uuid.UUID]uint64{}
+	hits := uint64(0)
+	armed := os.Getenv("VERIF_KILL_ARM") != "signal"
+	if !armed {
+		arm := make(chan os.Signal, 1)
+		signal.Notify(arm, syscall.SIGUSR2)
+		go func() {
+			<-arm
+			mu.Lock()
+			armed = true
+			mu.Unlock()
+			fmt.Fprintf(os.Stderr, "VERIF-KILL armed\n")
+		}()
+	}
+
+	killGroup, killPoint, killAt := "", "", uint64(0)
+	if spec := os.Getenv("VERIF_KILL_AT"); spec != "" {
+		if i := strings.Index(spec, ":"); i > 0 {
+			killGroup = spec[:i]
+			rest := spec[i+1:]
+			if j := strings.LastIndex(rest, "@"); j > 0 {
+				killPoint = rest[:j]
+				killAt, _ = strconv.ParseUint(rest[j+1:], 10, 64)
+			}
+		}
+	}
+	snapEvery, _ := strconv.ParseUint(os.Getenv("VERIF_SNAPSHOT_EVERY"), 10, 64)
+
+	if snapEvery > 0 {
+		raft.VerifHooks.SnapC = func(nodeId uint64, groupId uuid.UUID) <-chan uint64 {
+			mu.Lock()
+			defer mu.Unlock()
+			c := make(chan uint64, 1)
+			snapC[groupId] = c
+			return c
+		}
+	}
+	if snapEvery > 0 || killAt > 0 {
+		raft.VerifHooks.Event = func(nodeId uint64, groupId uuid.UUID, point string, args ...interface{}) {
+			mu.Lock()
+			if point == "applied" && snapEvery > 0 {
+				applied[groupId]++
+				if applied[groupId]%snapEvery == 0 {
+					if c := snapC[groupId]; c != nil {
+						select {
+						case c <- 0:
+						default:
+						}
+					}
+				}
+			}
+			kill := false
+			if armed && killAt > 0 && point == killPoint {
+				isZero := uuid.Equal(groupId, uuid.Nil)
+				if killGroup == "any" || (killGroup == "zero" && isZero) || (killGroup == "partition" && !isZero) {
+					hits++
+					kill = hits == killAt
+				}
+			}
+			mu.Unlock()
+			if kill {
+				fmt.Fprintf(os.Stderr, "VERIF-KILL group=%s point=%s hit=%d\n", groupId, point, killAt)
+				syscall.Kill(os.Getpid(), syscall.SIGKILL)
+				select {}
+			}
+		}
+	}
+
+	if path := os.Getenv("VERIF_DUMP"); path != "" {
+		sig := make(chan os.Signal, 4)
+		signal.Notify(sig, syscall.SIGUSR1)
+		go func() {
+			for range sig {
+				verifDump(server, path)
+			}
+		}()
+	}
+}
+
+type verifDumpItem struct {
+	Vector   []float32
+	Metadata map[string]string
+}
+
+type verifDumpRaft struct {
+	Term, Commit, Applied, Lead uint64
+}
+
+type verifDumpPartition struct {
+	Loaded  bool
+	Raft    *verifDumpRaft
+	NodeIds []uint64
+	Len     uint64
+	Items   map[string]verifDumpItem
+}
+
+type verifDumpDoc struct {
+	NodeId   uint64
+	Zero     *verifDumpRaft
+	Nodes    map[string]string
+	Datasets map[string]map[string]*verifDumpPartition
+	Order    map[string][]string
+}
+
+func verifDump(server *anndb.Server, path string) {
+	in := server.VerifInternals()
+	doc := &verifDumpDoc{Nodes: map[string]string{}, Datasets: map[string]map[string]*verifDumpPartition{}, Order: map[string][]string{}}
+	if in.ClusterConn != nil {
+		doc.NodeId = in.ClusterConn.Id()
+		for id, addr := range in.ClusterConn.Nodes() {
+			doc.Nodes[strconv.FormatUint(id, 10)] = addr
+		}
+	}
+	if in.ZeroGroup != nil {
+		st := in.ZeroGroup.VerifStatus()
+		doc.Zero = &verifDumpRaft{Term: st.Term, Commit: st.Commit, Applied: st.Applied, Lead: st.Lead}
+	}
+	if in.DatasetManager != nil {
+		for dsId, ds := range in.DatasetManager.VerifDatasets() {
+			parts := map[string]*verifDumpPartition{}
+			for _, pid := range ds.VerifPartitionIds() {
+				doc.Order[dsId.String()] = append(doc.Order[dsId.String()], pid.String())
+				p := &verifDumpPartition{NodeIds: ds.VerifPartitionNodeIds(pid), Items: map[string]verifDumpItem{}}
+				idx, loaded := ds.VerifPartitionIndex(pid)
+				p.Loaded = loaded
+				if g, ok := ds.VerifPartitionRaft(pid).(*raft.RaftGroup); ok && g != nil {
+					st := g.VerifStatus()
+					p.Raft = &verifDumpRaft{Term: st.Term, Commit: st.Commit, Applied: st.Applied, Lead: st.Lead}
+				}
+				if idx != nil {
+					d := idx.VerifDump()
+					p.Len = d.Len
+					for id, v := range d.Vertices {
+						if !v.Deleted {
+							p.Items[id.String()] = verifDumpItem{Vector: []float32(v.Vector), Metadata: map[string]string(v.Metadata)}
+						}
+					}
+				}
+				parts[pid.String()] = p
+			}
+			doc.Datasets[dsId.String()] = parts
+		}
+	}
+	b, err := json.Marshal(doc)
+	if err != nil {
+		fmt.Fprintf(os.Stderr, "VERIF-DUMP failed: %v\n", err)
+		return
+	}
+	tmp := path + ".tmp"
+	if err := os.WriteFile(tmp, b, 0o644); err == nil {
+		os.Rename(tmp, path)
+	}
+}
